@@ -203,6 +203,9 @@ def check_axis_none(case, rec):
         raise
     if pipeline_cols is None or len(pipeline_cols[nm['center']]) < 2:
         raise Discard('fewer than three full oscillations after cutting')
+    ref.ref_band_amp(xs, c['fs'], tuple(c['f_range']))      # the cut recording must still be longer than the band-amplitude filter
+    if c['method'] == 'amp':
+        pipeline.trusted_burst_mask(c, xs)
     sigs = xs.reshape(n_ep, L)
     layout = case.get('layout', 'C')
     if layout == 'F':
